@@ -14,9 +14,10 @@ import (
 // C10 — open-path offsetting produces the stroke of half-width delta.
 
 var c10Specs = []famSpec{
-	{Family: "stroke-rand", FreshQ: 5000, FreshT: 250000},
-	{Family: "stroke-degenerate", FreshQ: 2500, FreshT: 100000},
-	{Family: "stroke-point", FreshQ: 800, FreshT: 20000},
+	{Family: "stroke-rand", Pool: 200000, PoolQ: 5000},
+	{Family: "stroke-degenerate", Pool: 100000, PoolQ: 2500},
+	{Family: "stroke-point", Pool: 20000, PoolQ: 1000},
+	{Family: "stroke-generic", FreshQ: 3000, FreshT: 150000},
 }
 
 func init() {
@@ -79,6 +80,23 @@ func strokeInput(id run.CaseID) strokeCase {
 			}
 		}
 		sc.Lines = Paths{p}
+	case "stroke-generic":
+		// x-monotone polyline with long segments relative to delta: never approaches itself
+		n := 2 + r.Intn(6)
+		x, y := r.Range(-R, 0), r.Range(-R, R)
+		p := Path{{X: x, Y: y}}
+		for len(p) < n {
+			x += R/4 + r.Range(0, R/2)
+			y = r.Range(-R, R)
+			p = append(p, Pt{X: x, Y: y})
+		}
+		sc.Lines = Paths{p}
+		sc.Delta = math.Max(0.5, gen.PickOf(r, 0.5, 1, 2.5, 6, float64(R)*0.005, float64(R)*0.03))
+		sc.Join = r.Intn(4)
+		sc.End = 1 + r.Intn(4)
+		sc.Miter = gen.PickOf(r, 1.0, 2, 5)
+		sc.ArcTol = gen.PickOf(r, 0, 0, 0.25, sc.Delta/2)
+		return sc
 	default:
 		k := 1 + r.Intn(2)
 		for i := 0; i < k; i++ {
